@@ -187,6 +187,40 @@ func checkC12(c *Ctx) {
 	r.Rule("C12.2", "forwarded wrapper is fresh; signature fields only from Marshal/Sign under `authenticated`; input signature fields never read", 5)
 	if f := c.fn("C12.2", rp, "RegProcessor", "processC2SWrapper"); f != nil {
 		in0 := pname(f.Params[1])
+		// a build phase the function delegates to: `return p.helper(wrapper, …)` - the same rule is read there, with
+		// the wrapper under the helper's own parameter name
+		for hops := 0; hops < 2; hops++ {
+			hasMarshal := len(callsIn(f, nameIs("google.golang.org/protobuf/proto.Marshal"))) > 0
+			if hasMarshal {
+				break
+			}
+			var deleg *ssa.Call
+			eachInstr(f, func(in ssa.Instruction) {
+				ret, ok := in.(*ssa.Return)
+				if !ok || len(ret.Results) != 2 {
+					return
+				}
+				if ex, ok := returnedValue(ret, 0, nil).(*ssa.Extract); ok {
+					if call, ok := ex.Tuple.(*ssa.Call); ok && helperCallee(f, &call.Call) != nil {
+						deleg = call
+					}
+				}
+			})
+			if deleg == nil {
+				break
+			}
+			h := helperCallee(f, &deleg.Call)
+			idx := -1
+			for i, a := range deleg.Call.Args {
+				if pathOf(a) == in0 {
+					idx = i
+				}
+			}
+			if idx < 0 || idx >= len(h.Params) {
+				break
+			}
+			f, in0 = h, pname(h.Params[idx])
+		}
 		// the marshalled (returned) object
 		var final *ssa.Call
 		for _, call := range callsIn(f, nameIs("google.golang.org/protobuf/proto.Marshal")) {
